@@ -28,6 +28,8 @@ IMPORTS = {
     "import_typing": ("import typing", None),
     "from_typing_tc": ("from typing import TYPE_CHECKING", None),
     "import_two": ("import os.path, json", "json.dumps(1)"),
+    # a drop-in replacement imported under the name of a module the stub imports from (`import regex as re`)
+    "import_json_as_nmfoo": ("import json as nmfoo", "nmfoo.dumps(1)"),
     # a class named like a class of another module that stubs import (fxh.Outer): `Outer` from M1 at runtime while the stub
     # brings `Outer` from M2 and another name from M1
     "from_twinmod_Outer": ("from twinmod import Outer", "Outer.Nested.__name__"),
@@ -68,6 +70,9 @@ def fspec(draw, name, method=None):
         elif seen:
             d = "0"
         ps.append(dict(name="p%d" % i, default=d, anno=draw(st.sampled_from(ANNOS)), traced=draw(st.integers(0, 17))))
+        if ps[-1]["traced"] % 6 == 5:
+            # a name shaped like a privately mangled one (it is not: it does not start with two underscores)
+            ps[-1]["name"] = "_p%d__x" % i
     return dict(name=name, ps=ps, ret_anno=draw(st.sampled_from(ANNOS)), ret_traced=draw(st.integers(1, 17)),
                 kwonly=draw(st.booleans()), varargs=draw(st.booleans()), posonly=draw(st.sampled_from([False, False, True])), deco=draw(st.sampled_from([None, None, "deco", "deco2"])),
                 style=draw(st.sampled_from(["normal", "normal", "oneline", "multiline"])), nested=draw(st.booleans()),
@@ -111,6 +116,12 @@ def source(draw):
                 f0["ps"][0]["traced"] = 17
             else:
                 f0["ps"] = [dict(name="p0", default=None, anno=None, traced=17)]
+    if "import_json_as_nmfoo" in imps:
+        # ... and the traces do bring a class of that module into the stub
+        fs = [it for kind, it in items if kind == "func"] + [m for kind, it in items if kind == "class" for m in it["methods"] if m["method"] != "property"]
+        if fs:
+            fs[-1]["traced"] = True
+            fs[-1]["ret_traced"] = 9
     return dict(doc=draw(st.booleans()), future=draw(st.sampled_from([None, None, "from __future__ import annotations", "from __future__ import division"])),
                 lead_comment=draw(st.booleans()), imports=imps, import_after_code=draw(st.sampled_from([None, None, "from_nmfoo", "import_os"])),
                 tc_block=draw(st.sampled_from([None, None, "from fxh import Other", "import nmfoo"])),
